@@ -124,6 +124,7 @@ type ctl struct {
 
 	ins     []chan int
 	newSnd  chan<- int
+	refIn   chan *cell // input 0 of a reference-typed fold
 	inline  bool // inside a burst
 	outs    map[string]func() (int, bool)
 	outLen  map[string]func() int
@@ -169,6 +170,19 @@ func (c *ctl) enter(a, x int) {
 	if g != nil {
 		<-g
 	}
+}
+
+// cell is the element type of the reference-typed folds (cfg.monoid = "sumref"): the monoid's Empty returns a fresh
+// accumulator and Combine updates its first argument in place - legitimate for a monoid, fatal if an accumulator is shared.
+type cell struct{ v int }
+
+type refMonoid struct{ fs *fnset }
+
+func (m refMonoid) Empty() *cell { return &cell{} }
+func (m refMonoid) Combine(a, b *cell) *cell {
+	m.fs.c.enter(a.v, b.v)
+	a.v += b.v
+	return a
 }
 
 type failure struct{ x int }
@@ -498,6 +512,22 @@ func (c *ctl) build() {
 	case cfg.Kind == "Void":
 		d := fork.Void(ctx, cfg.Par, in)
 		c.addOut("res", unitReader(d), func() int { return len(d) })
+	case cfg.Kind == "Fold" && cfg.Monoid == "sumref":
+		c.refIn = make(chan *cell, cfg.Cap)
+		c.ins[0] = nil
+		var d <-chan *cell
+		if cfg.Forked {
+			d = fork.Fold[*cell](ctx, cfg.Par, c.refIn, refMonoid{fs})
+		} else {
+			d = pipe.Fold[*cell](ctx, c.refIn, refMonoid{fs})
+		}
+		c.addOut("res", func() (int, bool) {
+			p, ok := <-d
+			if !ok || p == nil {
+				return 0, ok
+			}
+			return p.v, true
+		}, func() int { return len(d) })
 	case cfg.Kind == "Fold" && !cfg.Forked:
 		d := pipe.Fold(ctx, in, fs.mono())
 		c.addOut("res", intReader(d), func() int { return len(d) })
@@ -618,6 +648,8 @@ func (c *ctl) snapshot() Snap {
 	for i, ch := range c.ins {
 		if ch != nil {
 			s.InLen[i] = len(ch)
+		} else if c.refIn != nil {
+			s.InLen[i] = len(c.refIn)
 		} else if c.newSnd != nil {
 			s.InLen[i] = len(c.newSnd)
 		}
@@ -686,7 +718,31 @@ func (c *ctl) issue(cmd *Cmd) {
 		cmd.V = v
 		c.sendIdx[i]++
 		c.sendPend[i] = true
-		ch := c.sendCh(i)
+		var trySend func() bool
+		var send func()
+		if c.refIn != nil {
+			p := &cell{v}
+			trySend = func() bool {
+				select {
+				case c.refIn <- p:
+					return true
+				default:
+					return false
+				}
+			}
+			send = func() { c.refIn <- p }
+		} else {
+			ch := c.sendCh(i)
+			trySend = func() bool {
+				select {
+				case ch <- v:
+					return true
+				default:
+					return false
+				}
+			}
+			send = func() { ch <- v }
+		}
 		if c.inline {
 			// inside a burst: complete the send here if it cannot block, so that nothing else runs before the next sub-command
 			done := false
@@ -697,11 +753,9 @@ func (c *ctl) issue(cmd *Cmd) {
 						done = true
 					}
 				}()
-				select {
-				case ch <- v:
+				if trySend() {
 					c.emit(Ev{E: "sent", I: i, V: v, K: -1}) // K = -1: completed inline, no parked sender involved
 					done = true
-				default:
 				}
 			}()
 			if done {
@@ -715,7 +769,7 @@ func (c *ctl) issue(cmd *Cmd) {
 					c.emit(Ev{E: "sendpanic", I: i, V: v})
 				}
 			}()
-			ch <- v
+			send()
 			c.emit(Ev{E: "sent", I: i, V: v})
 		}()
 	case "close":
@@ -726,7 +780,11 @@ func (c *ctl) issue(cmd *Cmd) {
 					c.emit(Ev{E: "closepanic", I: cmd.I})
 				}
 			}()
-			close(c.sendCh(cmd.I))
+			if c.refIn != nil {
+				close(c.refIn)
+			} else {
+				close(c.sendCh(cmd.I))
+			}
 		}()
 	case "recv":
 		o := cmd.O
@@ -999,6 +1057,13 @@ func (c *ctl) teardown() {
 	}
 	c.cfg.Gate = false
 	c.mu.Unlock()
+	if c.refIn != nil {
+		ch := c.refIn
+		go func() {
+			for range ch {
+			}
+		}()
+	}
 	for i := range c.ins {
 		ch := c.ins[i]
 		if ch == nil {
@@ -1010,6 +1075,10 @@ func (c *ctl) teardown() {
 		}()
 	}
 	synctest.Wait()
+	if c.refIn != nil && !c.inClosed[0] {
+		close(c.refIn)
+		c.inClosed[0] = true
+	}
 	for i := range c.ins {
 		if c.ins[i] != nil && !c.inClosed[i] {
 			close(c.ins[i])
